@@ -262,6 +262,7 @@ func TestReplay(t *testing.T) {
 		if inflight > n {
 			errs = append(errs, "more-than-n-calls-in-progress")
 		}
+		vsync.Yield()
 		for j := 0; j < items; j++ {
 			if G[i][j] {
 				w.Add(j)
